@@ -306,9 +306,19 @@ def check(model, rep, tier):
   for lp in [l for l in ast.walk(vn.node) if isinstance(l, ast.For) and
              'DEFINED_FNS_IN' in tpl.xnorm(vn, l.iter, l.iter)]:
     lv = core.norm(lp.target)
-    ok = pat.has(lp, 'self._update_closure_types(%s, %s)' % (lv, tout_name)) and \
-        any(isinstance(i, ast.If) and core.norm(i.test).startswith(lv + '.name in ')
-            for i in lp.body)
+    calls_ = [st for st in ast.walk(lp) if isinstance(st, ast.Expr) and core.norm(
+        st.value) == 'self._update_closure_types(%s, %s)' % (lv, tout_name)]
+    ok = len(calls_) == 1
+    if ok:
+      # within one iteration, the call runs exactly when the statement reads
+      # the function's name
+      fake = ast.fix_missing_locations(ast.FunctionDef(
+          name='_iteration', args=ast.arguments(
+              posonlyargs=[], args=[], kwonlyargs=[], kw_defaults=[], defaults=[]),
+          body=lp.body, decorator_list=[], lineno=lp.lineno, col_offset=0))
+      f = formula.condition_formula(fake, calls_[0], lambda e: core.norm(e))
+      ok = len(f.atoms) == 1 and list(f.atoms)[0].startswith(lv + '.name in ') and \
+          formula.equivalent(f, formula.atom(list(f.atoms)[0]))[0]
   rep.check(ok, 'TI-CLOSURE', '%s:recorded-at-every-calling-statement' % vn.site,
             'closure types are accumulated at every statement that mentions a '
             'reaching local function', line=vn.node.lineno)
